@@ -40,6 +40,10 @@ macro_rules! with_prop {
                 let $p = props::c11::C11;
                 $body
             }
+            "C18" => {
+                let $p = props::c18::C18;
+                $body
+            }
             "C05" => {
                 let $p = props::c05::C05;
                 $body
